@@ -7,6 +7,7 @@ package c11
 import (
 	"fmt"
 	"net/http"
+	"net/url"
 	"strings"
 	"testing"
 	"time"
@@ -142,6 +143,37 @@ func runConfig(rep *vh.Report, env vh.Env, ci, perConfig, only int) {
 	}
 }
 
+// login takes the case through the real /oauth2/callback. The proxy keeps no server-side flow state (the
+// state parameter and the CSRF cookie are both sealed values the browser holds), so one started flow per
+// upstream serves several callbacks; every 32nd case of an upstream, and every case whose callback answers
+// anything but 302 / 403, walks the whole flow afresh (sut.ProxyStack.Login).
+func login(rep *vh.Report, ps *sut.ProxyStack, u *upstream, k int, email string, answer sut.Answer) *sut.LoginResult {
+	if u.flow == nil || k%32 == 0 {
+		rep.Count("login_flows_started", 1)
+		lr := ps.Login(u.host, "/app/start", answer)
+		if lr.Start != nil && lr.Start.Err == nil && lr.Start.Status == http.StatusFound && lr.State != "" && lr.CSRF != "" {
+			u.flow = lr
+		}
+		return lr
+	}
+	lr := &sut.LoginResult{Start: u.flow.Start, State: u.flow.State, CSRF: u.flow.CSRF, SignInURL: u.flow.SignInURL}
+	lr.Code = "code-" + sut.NewID()
+	ps.Auth.Set("redeem", lr.Code, answer)
+	lr.Callback = ps.Get(u.host, "/oauth2/callback?code="+url.QueryEscape(lr.Code)+"&state="+url.QueryEscape(lr.State), ps.CSRFName+"="+lr.CSRF)
+	if v, set, cleared := lr.Callback.Cookie(ps.CookieName); set && !cleared {
+		lr.Cookie = v
+	}
+	st := lr.Callback.Status
+	if lr.Callback.Err == nil && (st == http.StatusFound || st == http.StatusForbidden || (email == "" && st == http.StatusInternalServerError)) {
+		return lr
+	}
+	ps.Auth.Unset("redeem", lr.Code)
+	ps.Auth.Calls("redeem", lr.Code)
+	rep.Count("login_flows_started", 1)
+	u.flow = nil
+	return ps.Login(u.host, "/app/start", answer)
+}
+
 func scriptAnswer(email string, memberOf []string, failed bool) sut.Answer {
 	if failed {
 		return sut.Status(500)
@@ -208,7 +240,7 @@ func runCase(rep *vh.Report, env vh.Env, ps *sut.ProxyStack, u *upstream, ci, i,
 	rep.Eval()
 
 	// ---- moment 1: the real login callback
-	lr := ps.Login(u.host, "/app/start", sut.RedeemOK(email, at, rt, 3600))
+	lr := login(rep, ps, u, k, email, sut.RedeemOK(email, at, rt, 3600))
 	if lr.Code != "" {
 		defer func() { ps.Auth.Unset("redeem", lr.Code); ps.Auth.Calls("redeem", lr.Code) }()
 	}
@@ -270,7 +302,7 @@ func runCase(rep *vh.Report, env vh.Env, ps *sut.ProxyStack, u *upstream, ci, i,
 	// signatures name the coarse input class only; the exact rule set / e-mail / answer are in the case
 	inputTag := " email=" + coarse[class]
 	if u.mask&kGrp != 0 && provFailed {
-		inputTag += " groups=provider-error"
+		inputTag = " groups=provider-error"
 	}
 	loginDiffers := false
 	if ref.overall == dontCare {
@@ -281,11 +313,12 @@ func runCase(rep *vh.Report, env vh.Env, ps *sut.ProxyStack, u *upstream, ci, i,
 		rep.Count("reference_"+ref.verdict(), 1)
 		if kc.Login.Verdict != ref.verdict() {
 			loginDiffers = true
-			by := ""
+			tag := inputTag
 			if ref.overall == pass {
-				by = " admitted-by=" + ref.admittedBy()
+				// what matters is which rule admits per the reference and how the e-mail matches it
+				tag = " admitted-by=" + ref.admittedBy() + howAdmitted(ref.admittedBy(), u.rules, email)
 			}
-			rep.Violate("c11", i, fmt.Sprintf("login-differs: login=%s reference=%s%s%s", kc.Login.Verdict, ref.verdict(), by, inputTag),
+			rep.Violate("c11", i, fmt.Sprintf("login-differs: login=%s reference=%s%s", kc.Login.Verdict, ref.verdict(), tag),
 				"the verdict of the real validators at /oauth2/callback differs from the documented meaning of the allow rules", kc)
 		}
 	}
